@@ -40,15 +40,21 @@ def tables():
             continue
         f = line.split()
         leap.append((int(dec_to_int(f[4], 1) - 24000005) // 10, dec_to_int(f[6], 7)))
-    ut1 = {}
-    for line in open(os.path.join(key, "finals.all"), encoding="ascii").read().splitlines():
-        line = line.rstrip()
-        try:
-            mjd = dec_to_int(line[7:15], 2) // 100
-            float(line[18:27]); float(line[37:46])
-            ut1[mjd] = dec_to_int(line[58:68], 7)
-        except ValueError:
-            break
+    cols = {}
+    for fn in ("finals.all", "finals2000A.all"):
+        cols[fn] = {}
+        for line in open(os.path.join(key, fn), encoding="ascii").read().splitlines():
+            line = line.rstrip()
+            try:
+                mjd = dec_to_int(line[7:15], 2) // 100
+                float(line[18:27]); float(line[37:46])
+                cols[fn][mjd] = dec_to_int(line[58:68], 7)
+            except ValueError:
+                break
+    # SimpleEopDatabase: the days of finals.<type>, each record updated with (overridden by) finals2000A.<type>
+    if not set(cols["finals.all"]) <= set(cols["finals2000A.all"]):
+        raise RuntimeError("finals2000A lacks days of finals: the real database cannot be instantiated")
+    ut1 = {d: cols["finals2000A.all"][d] for d in cols["finals.all"]}
     _tables[key] = (leap, ut1, min(ut1), max(ut1))
     return _tables[key]
 
@@ -86,6 +92,10 @@ def leap_days():
 def setup(policy="pass"):
     from beyond.config import config
     config.update({"eop": {"folder": pole_dir(), "type": "all", "missing_policy": policy}})
+    log = logging.getLogger("beyond.dates.eop")
+    if not any(isinstance(h, logging.NullHandler) for h in log.handlers):
+        log.addHandler(logging.NullHandler())
+    log.propagate = False
 
 
 def set_policy(policy):
@@ -519,4 +529,335 @@ def replay(f):
         check_pair(out, rng, i["scale"], i["to"], i["clock_us"])
     elif "step_us" in i:
         check_range(out, rng, i["scale"], i["clock_us"], replay=(i["step_us"], i["dur_us"], i["inclusive"], i["stop_as_timedelta"]))
+    return out
+
+
+# ---------------------------------------------------------------- extract: source -> Generated/*.lean
+
+DATE_PY = lambda: os.path.join(core.REPO, "beyond", "dates", "date.py")   # noqa: E731
+GAP = 999999999
+
+
+def _class_consts(tree, cls):
+    node = next(n for n in tree.body if isinstance(n, ast.ClassDef) and n.name == cls)
+    out = {}
+    for s in node.body:
+        if isinstance(s, ast.Assign) and len(s.targets) == 1 and isinstance(s.targets[0], ast.Name) and isinstance(s.value, ast.Constant):
+            out[s.targets[0].id] = s.value.value
+    return out
+
+
+def scale_ops(tree, names):
+    """the `_scale_<hi>_minus_<lo>` methods of Timescale, in source order: (hi, lo, kind-text, python-kind)"""
+    node = next(n for n in tree.body if isinstance(n, ast.ClassDef) and n.name == "Timescale")
+    low = {n.lower(): i for i, n in enumerate(names)}
+    ops = []
+    for f in node.body:
+        if not (isinstance(f, ast.FunctionDef) and f.name.startswith("_scale_") and "_minus_" in f.name):
+            continue
+        hi, lo = f.name[len("_scale_"):].split("_minus_")
+        if hi not in low or lo not in low:
+            raise RuntimeError(f"{f.name}: unknown scale")
+        body = [s for s in f.body if not (isinstance(s, ast.Expr) and isinstance(s.value, ast.Constant))]
+        ret = body[-1]
+        if not isinstance(ret, ast.Return):
+            raise RuntimeError(f"{f.name}: no final return")
+        v = ret.value
+        args = [a.arg for a in f.args.args]
+        if len(body) == 1 and isinstance(v, ast.Constant) and isinstance(v.value, (int, float)):
+            kind = f".const {dec_to_int(repr(v.value), 7)}"
+        elif len(body) == 1 and isinstance(v, ast.Attribute) and isinstance(v.value, ast.Name) and v.value.id == args[2] and v.attr in ("tai_utc", "ut1_utc"):
+            kind = ".taiUtc" if v.attr == "tai_utc" else ".ut1Utc"
+        elif (hi, lo) == ("tdb", "tt"):
+            kind = ".tdbTt"
+        else:
+            raise RuntimeError(f"{f.name}: body not understood")
+        ops.append((low[hi], low[lo], kind, f.name))
+    return ops
+
+
+def extract(ctx):
+    from harness import py2lean, instantiate
+    from harness.props import C20
+    ch = list(C20.extract(ctx) or [])
+    names = ctx.graphs["scales"][0]
+    src = open(DATE_PY()).read()
+    tree = ast.parse(src)
+    dconst = _class_consts(tree, "Date")
+    ops = scale_ops(tree, names)
+    ctx.scale_names = names
+    ctx.scale_ops = ops
+    txt = ["/- GENERATED by harness/props/C03.py from beyond/dates/date.py — do not edit. -/",
+           "import BeyondVerif.Model.Date", "namespace BeyondVerif.Generated", "open BeyondVerif.Date",
+           "/-- the `_scale_<hi>_minus_<lo>` methods of `Timescale` in source order (indices into `scalesNames`) -/",
+           "def scaleOps : List ScaleOp := [" + ", ".join(f"⟨{h}, {l}, {k}⟩" for h, l, k, _ in ops) + "]",
+           f"def refScale : Nat := {names.index(dconst['REF_SCALE'])}",
+           f"def defaultScale : Nat := {names.index(dconst['DEFAULT_SCALE'])}",
+           "end BeyondVerif.Generated", ""]
+    if core.write_if_changed(os.path.join(core.LEAN, "BeyondVerif", "Generated", "Scales.lean"), "\n".join(txt)):
+        ch.append("Generated/Scales.lean")
+    # the TDB-TT formula, translated from the AST
+    consts = {"Date.JD_MJD": f"({dconst['JD_MJD']!r} : R)", "Date.J2000": f"({dconst['J2000']!r} : R)", "cls.J2000": f"({dconst['J2000']!r} : R)"}
+    funcs = {"Date._julian_century": "julianCentury"}
+    body = ""
+    for qual, inputs, lname in (("Date._julian_century", ["jd"], "julianCentury"), ("Timescale._scale_tdb_minus_tt", ["mjd"], "tdbMinusTt")):
+        fn = py2lean.find_function(tree, qual)
+        ret = fn.body[-1]
+        if not isinstance(ret, ast.Return):
+            raise RuntimeError(f"{qual}: no final return")
+        tr = py2lean.Tr(consts=consts, funcs=funcs)
+        res = tr.expr(ret.value)
+        outs = sorted({n.id for n in ast.walk(ret.value) if isinstance(n, ast.Name)} - {"sin", "radians", "cls", "Date"})
+        body += py2lean.translate_slice(DATE_PY(), qual, inputs, outs, lname, result_expr=res, consts=consts, funcs=funcs) + "\n"
+    ch += py2lean.instantiate(core.LEAN, "Tdb", body, "beyond/dates/date.py")
+    # the IERS tables shipped with the repository, through the independent column parser
+    leap, ut1, first, last = tables()
+    cells = []
+    for day in range(first, last + 1):
+        v = ut1.get(day, None)
+        if v is not None and abs(v) >= 10**8:
+            raise RuntimeError("UT1-UTC out of range")
+        cells.append("%09d" % (GAP if v is None else v + 10**8))
+    raw = "".join(cells)
+    chunks = [raw[i:i + 9000] for i in range(0, len(raw), 9000)]
+    txt = ["/- GENERATED by harness/props/C03.py from tests/data/pole/{tai-utc.dat,finals.all} — do not edit. -/",
+           "namespace BeyondVerif.Generated",
+           "/-- `tai-utc.dat` in file order: (MJD of the entry, constant term of TAI−UTC in ticks of 1e-7 s) -/",
+           "def leapTable : List (Int × Int) := [" + ", ".join(f"({m}, {v})" for m, v in leap) + "]",
+           f"def finalsFirst : Int := {first}", f"def finalsLast : Int := {last}",
+           "/-- UT1−UTC per day from `finals.all`, ticks + 10^8 in 9 decimal digits per day (999999999 = no record) -/",
+           "def ut1Raw : List String := [" + ",\n  ".join('"' + c + '"' for c in chunks) + "]",
+           "end BeyondVerif.Generated", ""]
+    if core.write_if_changed(os.path.join(core.LEAN, "BeyondVerif", "Generated", "EopTable.lean"), "\n".join(txt)):
+        ch.append("Generated/EopTable.lean")
+    ch += instantiate.main()
+    return ch
+
+
+# ---------------------------------------------------------------- correspondence: compiled model vs real objects
+
+def real_show(x):
+    return "ok %s %d %d %d %d %d %d" % (x.scale.name, us_of(x._datetime), us_of(x.datetime), round(x._offset * 1e7),
+                                      round(x.eop.tai_utc * 1e7), round(x.eop.ut1_utc * 1e7), x.d * DAY_T + round(x.s * 1e7))
+
+
+def real_try(fn):
+    from beyond.errors import EopError, UnknownScaleError, DateError
+    try:
+        return real_show(fn())
+    except (KeyError, EopError):
+        return "err missing-eop"
+    except UnknownScaleError:
+        return "err unknown-scale"
+    except DateError:
+        return "err unknown-conversion"
+
+
+def same_reply(real, model, exact):
+    """exact: token equality. otherwise (UT1 / TDB involved): clock readings within 4 us (a UT1 date built from a
+    clock reading rounds `_s` and `_offset` separately; on a tie of the 0.1-us column the float noise decides, once
+    per construction, two constructions in a change_scale), offsets within 1 tick (float TDB term)"""
+    if real == model:
+        return True
+    if exact:
+        return False
+    a, b = real.split(), model.split()
+    if len(a) != len(b) or a[:2] != b[:2] or a[0] != "ok":
+        return False
+    tol = [4, 4, 1, 0, 0, 40]
+    return all(abs(int(x) - int(y)) <= t for x, y, t in zip(a[2:], b[2:], tol))
+
+
+def gen_any_label(rng, scale):
+    """like gen_label but leap-second neighbourhoods included (the model follows the code there too)"""
+    r = rng.random()
+    if r < 0.12:
+        ld = rng.choice(leap_days())
+        if ld > tables()[2] + 2:
+            return ld * DAY_US + rng.randint(-90 * 10**6, 90 * 10**6)
+    return gen_label(rng, scale)
+
+
+def correspondence(ctx):
+    setup()
+    from beyond.dates import Date, timedelta
+    from beyond.dates.date import get_scale
+    from beyond.dates.eop import EopDb, Eop
+    out = Outcome()
+    rng = ctx.rng
+    _, _, first, last = tables()
+    cases = []     # (line, thunk giving the real reply, exact?, kind)
+    N = ctx.n(1, 8)
+
+    def nonuni(*sc):
+        return bool(set(sc) & {"UT1", "TDB"})
+
+    # constructor from a datetime, all scales, inside the tables (also around leap seconds)
+    for sc in SCALES:
+        for _ in range(120 * N):
+            us = gen_any_label(rng, sc)
+            cases.append((f"d3dt pass {sc} {us}", (lambda sc=sc, us=us: real_try(lambda: mkdate(us, sc))), not nonuni(sc), "ctor-datetime"))
+    # constructor (d, s) with seconds outside [0, 86400) and dates outside the tables, three policies
+    for _ in range(250 * N):
+        sc = rng.choice(SCALES)
+        pol = rng.choice(["pass", "warning", "error"])
+        r = rng.random()
+        if r < 0.3:
+            d = rng.choice([first - 1, first, first + 1, last - 1, last, last + 1, last + 2, 30000, 37299, 37300, 41316, 41317, 60000])
+        else:
+            d = rng.randint(first - 30, last + 30)
+        s_us = rng.choice([0, 1, DAY_US - 1, DAY_US, DAY_US + 1, -1, rng.randint(-3 * DAY_US, 3 * DAY_US), rng.randint(0, DAY_US - 1), rng.randint(0, 70 * 10**6), DAY_US - rng.randint(1, 70 * 10**6)])
+
+        def th(sc=sc, pol=pol, d=d, s_us=s_us):
+            set_policy(pol)
+            try:
+                return real_try(lambda: Date(d, s_us / 1e6, scale=sc))
+            finally:
+                set_policy("pass")
+        cases.append((f"d3mk {pol} {sc} {d} {s_us * TICK}", th, not nonuni(sc), "ctor-day-seconds"))
+    # change_scale, all ordered pairs
+    for sa in SCALES:
+        for sb in SCALES:
+            for _ in range(25 * N):
+                us = gen_any_label(rng, sa)
+                cases.append((f"d3chg pass {sa} {us} {sb}", (lambda sa=sa, sb=sb, us=us: real_try(lambda: mkdate(us, sa).change_scale(sb))), not nonuni(sa, sb), "change-scale"))
+    # date + timedelta
+    for sc in SCALES:
+        for _ in range(100 * N):
+            us = gen_any_label(rng, sc)
+            t = gen_td(rng)
+            cases.append((f"d3add pass {sc} {us} {t}", (lambda sc=sc, us=us, t=t: real_try(lambda: mkdate(us, sc) + timedelta(microseconds=t))), not nonuni(sc), "add"))
+            if rng.random() < 0.3:
+                cases.append((f"d3add pass {sc} {us} {-t}", (lambda sc=sc, us=us, t=t: real_try(lambda: mkdate(us, sc) - timedelta(microseconds=t))), not nonuni(sc), "sub-timedelta"))
+    lines = [c[0] for c in cases]
+    model = core.Driver().run(lines)
+    for (line, th, exact, kind), m in zip(cases, model):
+        real = th()
+        out.count(key=line, kind=kind, exact=exact, reply=real.split()[0] + ("" if real.startswith("ok") else " " + real.split()[1]))
+        if not same_reply(real, m, exact):
+            out.fail("date-" + kind, f"{kind}: real Date and Model/Date.lean differ", line, observed=real, expected=m)
+        out.sample({"line": line, "reply": m}, limit=3)
+
+    # comparisons, hash, difference of two dates
+    cmp_cases = []
+    for _ in range(600 * N):
+        sa, sb = rng.choice(SCALES), rng.choice(SCALES)
+        ua = gen_label(rng, sa)
+        delta = rng.choice([0, 0, 1, -1, 2, -3, 10**6, -10**6, rng.randint(-10**8, 10**8)])
+        day = ua // DAY_US
+        ub = ua - approx_minus_utc(sa, day) + approx_minus_utc(sb, day) + delta
+        cmp_cases.append((sa, ua, sb, ub))
+    model = core.Driver().run([f"d3cmp pass {sa} {ua} {sb} {ub}" for sa, ua, sb, ub in cmp_cases])
+    for (sa, ua, sb, ub), m in zip(cmp_cases, model):
+        x, y = mkdate(ua, sa), mkdate(ub, sb)
+        real = "ok %d %d %d %d %d %d %d" % (td_us(x - y), x < y, x <= y, x == y, x >= y, x > y, hash(x) == hash(y))
+        mt = m.split()
+        gap = abs(int(mt[-1]))            # model distance of the instants in ticks
+        exact = not nonuni(sa, sb)
+        out.count(key=("cmp", sa, ua, sb, ub), kind="compare", exact=exact, order=("=" if gap == 0 else "<" if mt[2] == "1" else ">"))
+        if exact or gap >= 20:
+            ok = real.split()[2:] == mt[2:-1] and abs(int(real.split()[1]) - int(mt[1])) <= (0 if exact else 2)
+        else:
+            ok = abs(int(real.split()[1]) - int(mt[1])) <= 2
+        if not ok:
+            out.fail("date-compare", "comparison / hash / difference of two dates differ from the model", f"d3cmp pass {sa} {ua} {sb} {ub}", observed=real, expected=m)
+
+    # Timescale.offset with arbitrary EOP values
+    off_cases = []
+    for sa in SCALES:
+        for sb in SCALES:
+            for _ in range(4 * N):
+                num = gen_label(rng, sa) * TICK
+                tai = rng.randint(10, 40) * 10**7
+                ut1 = rng.randint(-9 * 10**6, 9 * 10**6)
+                off_cases.append((sa, sb, num, tai, ut1))
+    model = core.Driver().run([f"d3off {a} {b_} {n} {t} {u}" for a, b_, n, t, u in off_cases])
+    for (sa, sb, num, tai, ut1), m in zip(off_cases, model):
+        e = Eop(x=0, y=0, dx=0, dy=0, deps=0, dpsi=0, lod=0, ut1_utc=ut1 / 1e7, tai_utc=tai / 1e7)
+        real = get_scale(sa).offset(num / DAY_T, sb, e)
+        out.count(key=("off", sa, sb, num), kind="offset", pair=f"{sa}>{sb}")
+        if not m.startswith("ok ") or abs(round(real * 1e7) - int(m.split()[1])) > (1 if "TDB" in (sa, sb) else 0):
+            out.fail("scale-offset", "Timescale.offset differs from the model", f"d3off {sa} {sb} {num} {tai} {ut1}", observed=real, expected=m)
+
+    # the TDB-TT formula translated from the source (float instantiation) vs the method
+    tdb_cases = [rng.uniform(40000, 60000) for _ in range(200 * N)]
+    model = core.Driver().run([f"d3tdb {core.f2b(x)}" for x in tdb_cases])
+    for x, m in zip(tdb_cases, model):
+        real = float(get_scale("TDB")._scale_tdb_minus_tt(x, None))
+        out.count(key=("tdb", x), kind="tdb-formula")
+        if not core.close(real, core.b2f(m), rtol=0, atol=1e-12):
+            out.fail("tdb-formula", "translated TDB-TT formula differs from the method", x, observed=real, expected=core.b2f(m))
+
+    # EopDb.get: day lookup and missing-data policy
+    grab = _Grab()
+    log = logging.getLogger("beyond.dates.eop")
+    log.addHandler(grab)
+    old_level = log.level
+    log.setLevel(logging.WARNING)
+    eop_cases = []
+    days = list(range(first - 3, last + 4)) if ctx.thorough else [rng.randint(first - 20, last + 20) for _ in range(300)] + [first - 1, first, last, last + 1]
+    for day in days:
+        pol = rng.choice(["pass", "warning", "error"])
+        frac = rng.choice([0, 10, DAY_T - 10, rng.randrange(DAY_T)])   # the float mjd resolves 0.6 us: stay 1 us off midnight
+        eop_cases.append((pol, day * DAY_T + frac))
+    model = core.Driver().run([f"d3eop {p} {n}" for p, n in eop_cases])
+    try:
+        for (pol, num), m in zip(eop_cases, model):
+            set_policy(pol)
+            grab.records.clear()
+            try:
+                e = EopDb.get(num / DAY_T)
+                zero = e.tai_utc == 0 and e.ut1_utc == 0 and e.x == 0
+                if grab.records:
+                    real = "zero-warned" if zero else "found-but-warned"
+                elif zero and not (first <= num // DAY_T <= last):
+                    real = "zero-silent"
+                else:
+                    real = "found %d %d" % (round(e.tai_utc * 1e7), round(e.ut1_utc * 1e7))
+            except Exception:
+                real = "raised"
+            out.count(key=("eop", pol, num), kind="eop-get", reply=real.split()[0])
+            if real != m:
+                out.fail("eop-get", "EopDb.get differs from the model (day lookup / policy)", f"d3eop {pol} {num}", observed=real, expected=m)
+    finally:
+        set_policy("pass")
+        log.removeHandler(grab)
+        log.setLevel(old_level)
+
+    # DateRange vs the model on instants
+    rng_cases = []
+    for _ in range(300 * N):
+        sc = rng.choice(UNIFORM)
+        us = gen_label(rng, sc)
+        step = rng.choice([1, -1]) * rng.choice([1, 10**6, 60 * 10**6, rng.randint(1, 10**7), rng.randint(1, 10**10)])
+        r = rng.random()
+        dur = rng.randint(0, 40) * step if r < 0.4 else 0 if r < 0.5 else int(step * rng.uniform(0, 40))
+        if rng.random() < 0.12:
+            dur = -dur if dur else -step
+        if rng.random() < 0.04:
+            step = 0
+        incl = rng.random() < 0.5
+        if in_leap_window(sc, us + dur) or not no_leap_between(sc, us, us + dur + step):
+            continue
+        probes = [us - 1, us, us + 1, us + dur - 1, us + dur, us + dur + 1, us + dur // 2]
+        rng_cases.append((sc, us, dur, step, incl, probes))
+    lines = []
+    reals = []
+    for sc, us, dur, step, incl, probes in rng_cases:
+        start, stop = mkdate(us, sc), mkdate(us + dur, sc)
+        a, b_ = us_of(start._datetime), us_of(stop._datetime)
+        shift = a - us
+        lines.append(f"d3rng {a} {b_} {step} {int(incl)} " + " ".join(str(p + shift) for p in probes))
+        try:
+            rg = Date.range(start, stop, timedelta(microseconds=step), inclusive=incl)
+            items = list(rg)
+            reals.append(f"ok {len(rg)} I " + ",".join(str(us_of(x._datetime)) for x in items) + " C " + "".join(str(int(mkdate(p, sc) in rg)) for p in probes)
+                         + " Y " + "".join(str(int(x in rg)) for x in items))
+        except ValueError as e:
+            reals.append("err null-step" if "Null" in str(e) else "err incoherent")
+    model = core.Driver().run(lines)
+    for c, line, real, m in zip(rng_cases, lines, reals, model):
+        out.count(key=line, kind="daterange", step=("0" if c[3] == 0 else "+" if c[3] > 0 else "-"), inclusive=c[4], reply=real.split()[0] + (" " + real.split()[1] if real.startswith("err") else ""))
+        if real != m:
+            out.fail("daterange", "DateRange (len, iteration, membership) differs from the model", line, observed=real[:300], expected=m[:300])
     return out
